@@ -21,6 +21,19 @@ pub fn decode(tape: &[u32]) -> (StateCase, Value) {
                 c.spec.sr_defs.push((a, if t.chance(1, 2) { Sig::Stack(t.pick(4)) } else { Sig::Regs((0..t.pick(3)).map(|_| t.pick(8) as u8).collect()) }));
             }
         }
+        if c.spec.debug_frames && t.chance(1, 3) {
+            // call gadget: JSRR R1 at the PC to a subroutine with a calling-convention signature while R6 is at a
+            // boundary (argument block at the very top of memory / wrapping to x0000 / on the I/O page border)
+            let callee = *t.choose(&[0x4000u16, 0x3100, 0x0000, 0xFDFF]);
+            c.spec.regs[1] = callee;
+            c.spec.regs[6] = *t.choose(&[0xFFFFu16, 0xFFFE, 0xFFFD, 0xFFFC, 0xFFFB, 0x0000, 0xFDFF, 0xFDFE, 0x4000]);
+            c.spec.overlay.push((c.spec.pc, crate::model::isa::enc(&MInstr::Jsrr { base: 1 })));
+            c.spec.sr_defs.retain(|(a, _)| *a != callee);
+            c.spec.sr_defs.push((callee, Sig::Stack(1 + t.pick(3))));
+            if let Some(p0) = c.plan.first_mut() {
+                *p0 = None;
+            }
+        }
         let d = describe_state(&c);
         (c, d)
     } else {
@@ -53,6 +66,7 @@ pub fn check(tape: &[u32], st: &mut Stats) -> Result<(), String> {
     let mut underflow = false;
     let mut prev_depth = 0u64;
     let mut with_args = false;
+    let mut args_at_top = false;
     let mut kinds = (false, false, false);
     lockstep(&c, &mut Stats::default(), &mut |_rig, r, _| {
         max_depth = max_depth.max(r.depth);
@@ -62,6 +76,9 @@ pub fn check(tape: &[u32], st: &mut Stats) -> Result<(), String> {
         if let Some(f) = r.frames.last() {
             if !f.args.is_empty() {
                 with_args = true;
+                if f.fp.is_some_and(|fp| fp.wrapping_add(4) as u32 + f.args.len() as u32 >= 0x10000) {
+                    args_at_top = true;
+                }
             }
             match f.kind {
                 FrameKind::Subroutine => kinds.0 = true,
@@ -89,6 +106,9 @@ pub fn check(tape: &[u32], st: &mut Stats) -> Result<(), String> {
     if with_args {
         st.class("frame-with-arguments");
     }
+    if args_at_top {
+        st.class("argument-block-reaches-top-of-memory");
+    }
     if kinds.0 {
         st.class("subroutine-frame");
     }
@@ -115,13 +135,13 @@ pub fn describe(tape: &[u32]) -> Value {
 pub fn run(ctx: &Ctx) -> Outcome {
     let mut out = Outcome::new(
         "generated user programs with nested JSR/JSRR subroutines (R7 saved on the stack), I/O traps (which nest further traps inside the OS), top-level RETs (underflow), scheduled interrupts, registered calling-convention and pass-by-register signatures, \
-         debug frames on/off, real/virtual traps - plus raw machine states - stepped in lock step with the reference machine; after every step frame_stack.len() must equal the model's saturating depth and, with debug frames, the frame list must be equal element-wise \
+         debug frames on/off, real/virtual traps - plus raw machine states (a third of them with a JSRR call gadget to a calling-convention subroutine while R6 sits at xFFFB..xFFFF, x0000 or the I/O border) - stepped in lock step with the reference machine; after every step frame_stack.len() must equal the model's saturating depth and, with debug frames, the frame list must be equal element-wise \
          (caller, callee, kind, frame pointer, argument values); non-trivial = depth >= 2 reached or a return executed at depth 0; distinct by tape",
     );
     let cfg = TapeCfg::new(ctx, 1500, 60_000, 600);
     out.shards = cfg.shards;
     out.absorb(tape_search(ctx, "main", &cfg, check, describe));
-    out.essential = ["debug-frames-on", "debug-frames-off", "depth>=2", "depth>=3", "return-at-depth-0", "frame-with-arguments", "subroutine-frame", "trap-frame", "interrupt-frame"].iter().map(|s| s.to_string()).collect();
+    out.essential = ["debug-frames-on", "debug-frames-off", "depth>=2", "depth>=3", "return-at-depth-0", "frame-with-arguments", "argument-block-reaches-top-of-memory", "subroutine-frame", "trap-frame", "interrupt-frame"].iter().map(|s| s.to_string()).collect();
     out
 }
 
